@@ -1,0 +1,76 @@
+//go:build verif
+
+package msgpack
+
+// Contracts for govc (see /verif/DESIGN.md C17/C16). Comment-only file: it adds no code.
+// The third-party decoder (vmihailenco/msgpack) has no contract: every value it
+// returns is unconstrained, which is how "arbitrary input" is modelled.
+//
+//@ func msgpack.unmarshal
+//@   tags C17
+//@   borrows path
+//@   requires (and (wf_ty ty) (not (has_opt ty)))
+//@   ensures[C17] ok: (=> (= result.1 nil.Any) (decoded_ok result.0 ty))
+//
+//@ func msgpack.unmarshalPrimitive
+//@   tags C17
+//@   borrows path
+//@   requires (and (is_prim_ty ty) (wf_ty ty))
+//@   ensures[C17] ok: (=> (= result.1 nil.Any) (decoded_ok result.0 ty))
+//
+//@ func msgpack.unmarshalList
+//@   tags C17
+//@   borrows path
+//@   requires (and (wf_ty ety) (not (has_opt ety)))
+//@   ensures[C17] ok: (=> (= result.1 nil.Any) (decoded_ok result.0 (ty_list ety)))
+//@   loop 1 invariant (and (< (Slice.ptr vals) 0) (= (Slice.off vals) 0) (= (Slice.len vals) i) (<= 0 i) (<= i length))
+//@   loop 1 invariant (forall ((j Int)) (! (=> (and (trig j) (<= 0 j) (< j i)) (decoded_ok (select (select $H<Arr<cty.Value>> (Slice.ptr vals)) j) ety)) :pattern ((trig j))))
+//
+// Unknown values with refinements: contract assumed until the refinement builder (C05) is in place.
+//@ func msgpack.unmarshalUnknownValue
+//@   trusted
+//@   borrows path
+//@   requires (and (wf_ty ty) (not (has_opt ty)))
+//@   ensures (=> (= result.1 nil.Any) (decoded_ok result.0 ty))
+//
+//@ func msgpack.unmarshalSet
+//@   tags C17
+//@   borrows path
+//@   requires (and (wf_ty ety) (not (has_opt ety)))
+//@   ensures[C17] ok: (=> (= result.1 nil.Any) (decoded_ok result.0 (ty_set ety)))
+//@   loop 1 invariant (and (< (Slice.ptr vals) 0) (= (Slice.off vals) 0) (= (Slice.len vals) i) (<= 0 i) (<= i length))
+//@   loop 1 invariant (forall ((j Int)) (! (=> (and (trig j) (<= 0 j) (< j i)) (decoded_ok (select (select $H<Arr<cty.Value>> (Slice.ptr vals)) j) ety)) :pattern ((trig j))))
+//
+//@ func msgpack.unmarshalMap
+//@   tags C17
+//@   borrows path
+//@   requires (and (wf_ty ety) (not (has_opt ety)))
+//@   ensures[C17] ok: (=> (= result.1 nil.Any) (decoded_ok result.0 (ty_map ety)))
+//@   let vm (select $H<MapC<String~cty.Value>> vals)
+//@   loop 1 invariant (and (< vals 0) (MapC<String~cty.Value>.ok vm) (<= 0 i) (=> (> i 0) (> (MapC<String~cty.Value>.card vm) 0)))
+//@   loop 1 invariant (forall ((k String)) (! (=> (select (MapC<String~cty.Value>.dom vm) k) (decoded_ok (select (MapC<String~cty.Value>.val vm) k) ety)) :pattern ((select (MapC<String~cty.Value>.dom vm) k))))
+//
+//@ func msgpack.unmarshalTuple
+//@   tags C17
+//@   borrows path
+//@   let tup (mk.cty.Type (box<cty.typeTuple> (mk.cty.typeTuple mk.cty.typeImplSigil etys)))
+//@   requires (and (wf_ty tup) (not (has_opt tup)))
+//@   ensures[C17] ok: (=> (= result.1 nil.Any) (decoded_ok result.0 tup))
+//@   loop 1 invariant (and (< (Slice.ptr vals) 0) (= (Slice.off vals) 0) (= (Slice.len vals) i) (<= 0 i) (<= i length))
+//@   loop 1 invariant (forall ((j Int)) (! (=> (and (trig j) (<= (tuple_off tup) j) (< j (+ (tuple_off tup) i))) (conforms (vty (select (select $H<Arr<cty.Value>> (Slice.ptr vals)) (- j (tuple_off tup)))) (select (tuple_arr tup) j))) :pattern ((select (tuple_arr tup) j))))
+//@   loop 1 invariant (forall ((j Int)) (! (=> (and (trig j) (<= 0 j) (< j i)) (let ((v (select (select $H<Arr<cty.Value>> (Slice.ptr vals)) j))) (and (wf_ty (vty v)) (wf_marks v) (not (has_opt (vty v)))))) :pattern ((trig j))))
+//
+//@ func msgpack.unmarshalObject
+//@   tags C17
+//@   borrows path
+//@   requires (and (not (= atys 0)) (MapC<String~cty.Type>.ok (tmap atys)) (forall ((k String)) (! (=> (select (tmap_dom atys) k) (and (= (nfc k) k) (wf_ty (tmap_at atys k)) (not (has_opt (tmap_at atys k))))) :pattern ((select (tmap_dom atys) k)))))
+//@   ensures[C17] ok: (=> (= result.1 nil.Any) (decoded_ok result.0 (mk.cty.Type (box<cty.typeObject> (mk.cty.typeObject mk.cty.typeImplSigil atys 0)))))
+//@   let vm (select $H<MapC<String~cty.Value>> vals)
+//@   loop 1 invariant (and (< vals 0) (MapC<String~cty.Value>.ok vm) (<= 0 i))
+//@   loop 1 invariant (sub<String> (MapC<String~cty.Value>.dom vm) (tmap_dom atys))
+//@   loop 1 invariant (forall ((k String)) (! (=> (select (MapC<String~cty.Value>.dom vm) k) (and (select (tmap_dom atys) k) (decoded_ok (select (MapC<String~cty.Value>.val vm) k) (tmap_at atys k)))) :pattern ((select (MapC<String~cty.Value>.dom vm) k))))
+//
+//@ func msgpack.unmarshalDynamic
+//@   tags C17
+//@   borrows path
+//@   ensures[C17] ok: (=> (= result.1 nil.Any) (decoded_ok result.0 $G<cty.DynamicPseudoType>))
